@@ -1,42 +1,11 @@
 import SophiaModel.Basic.Proto
 import SophiaModel.Model.Backend
+import SophiaModel.Model.ParserContract
 import SophiaModel.Model.ParserGlue
 import SophiaModel.Gen.Regexes
 
 namespace SophiaModel.Driver.C08
-open SophiaModel Proto Re Backend
-
-/-- model of one (syntax, token kind): which tokens the back-end accepts, what it hands over,
-which validator the sophia accessor applies to that -/
-structure Spec where
-  accept : List Nat → Bool
-  out : List Nat → List Nat
-  validator : Re
-
-def strict (syn : String) : Bool := !(syn == "gnq" || syn == "gtrig")
-def rioFamily (syn : String) : Bool := ["nt", "nq", "ttl", "trig", "gnq", "gtrig"].contains syn
-def turtleLike (syn : String) : Bool := ["ttl", "trig", "gtrig"].contains syn
-
-def spec (syn kind : String) : Option Spec :=
-  let iriV := if strict syn then Gen.IRI_REGEX else Gen.IRI_REF_REGEX
-  if (kind == "bnode" || kind == "bnode_o") && rioFamily syn then
-    some ⟨matchB rioBnode, if turtleLike syn then disambiguate else id, Gen.BNODE_ID⟩
-  else if kind == "nodeid" && syn == "xml" then some ⟨matchB xmlNodeId, id, Gen.BNODE_ID⟩
-  else if kind == "lang" && (rioFamily syn || syn == "xml") then
-    some ⟨fun w => matchB rioLang (lowerAscii w), lowerAscii, Gen.LANG_TAG⟩
-  else if kind == "var" && (syn == "gnq" || syn == "gtrig") then some ⟨matchB rioVar, id, Gen.VARNAME⟩
-  else if kind == "iri" && syn == "gtrig" then some ⟨matchB gtrigIri, id, iriV⟩
-  else if kind == "iri" && syn == "gnq" then some ⟨matchB rioIriRef, id, iriV⟩
-  else if kind == "iri" && (rioFamily syn || syn == "xml") then some ⟨matchB rioIriAbs, id, iriV⟩
-  else if kind == "dt" && rioFamily syn then some ⟨matchB rioIriAbs, id, Gen.IRI_REGEX⟩
-  else if kind == "pname" && turtleLike syn then
-    some ⟨matchB pnLocalOut, fun w => ofStr "x:" ++ w, iriV⟩
-  else if kind == "pname_dt" && syn == "gtrig" then
-    -- `@prefix p: <w>` is not validated either; the datatype `w ++ "d"` must be absolute for the accessor
-    some ⟨matchB gtrigIri, fun w => w ++ ofStr "d", Gen.IRI_REGEX⟩
-  else if kind == "xmlns" && syn == "xml" then
-    some ⟨fun w => matchB xmlQNameOut (w ++ ofStr "p"), fun w => w ++ ofStr "p", Gen.IRI_REGEX⟩
-  else none
+open SophiaModel Proto Re Backend ParserContract
 
 def hexW (w : List Nat) : String := hexOfString (String.ofList (w.map Char.ofNat))
 
@@ -54,7 +23,9 @@ def witnesses : List (String × Option (List Nat)) :=
     ("ttl_pname", (witnessP okIncl ttlPnameOut Gen.IRI_REGEX).map (fun w => w.drop 2)),
     ("xml_nodeid", witnessP okIncl xmlNodeId Gen.BNODE_ID),
     ("ttl_bnode_obj", witnessP okIncl rioBnodeReturned Gen.BNODE_ID),
-    ("xml_qname", (witnessP okIncl xmlQNameOut Gen.IRI_REGEX).map (fun w => w.dropLast)) ]
+    ("xml_qname", (witnessP okIncl xmlQNameOut Gen.IRI_REGEX).map (fun w => w.dropLast)),
+    ("jsonld_bnode_pred", witnessP okIncl jsonldBnodePred Gen.BNODE_ID),
+    ("jsonld_bnode_pred_nocolon", witnessP okIncl jsonldBnodePredNoColon Gen.BNODE_ID) ]
 
 def handle (line : String) : String :=
   match fields line with
@@ -66,7 +37,7 @@ def handle (line : String) : String :=
       | none =>
         if syn == "jsonld" && kind == "bnode" then
           if matchB rdfTypesBlank (ofStr s) then "accepted=1 gen=1" else "accepted=0"
-        else if syn == "jsonld" && ["iri", "lang"].contains kind then "nomodel=1" else "bad-op"
+        else if (syn.splitOn "@").head! == "jsonld" || (syn == "xml" && kind == "type") then "nomodel=1" else "bad-op"
       | some sp =>
         let w := ofStr s
         if sp.accept w then
@@ -101,6 +72,7 @@ def handle (line : String) : String :=
     let sk := if sink == "-" then none else some sink.toNat!
     let outs := ParserGlue.run sk (steps.length + 2) ⟨steps, 0⟩
     kv "outs" (String.ofList (outs.map ParserGlue.Out.letter))
+  | ["rel", _, _, _, _, _] => "nomodel=1"
   | ["doc", _, _] => "explore=1"
   | ["doc", _, _, _] => "explore=1"
   | ["deep", _, _, _] => "explore=1"
